@@ -387,6 +387,9 @@ func genProfile(r *rng.R, u *universe, in *Input) {
 					if r.Chance(1, 4) {
 						a = genAtom(r, u, false, false)
 					}
+					if u.trouble(r, 0, 12, 5) { // not an atom: the run has to fail, not crash or ignore it
+						a = r.Pick([]string{"=x", "a/b/c", ">=sys-apps/alpha", "sys-apps/alpha-1.0", "sys-apps/", "/alpha", "sys-apps/alpha:", "~dev-libs/beta", "\xff\xfe", "sys-apps/alpha[", "%%"})
+					}
 					allAtoms = append(allAtoms, a)
 					n.Packages = append(n.Packages, B("*"+a))
 				}
@@ -554,6 +557,9 @@ func genInput(r *rng.R, scenario int) Input {
 			}
 			if r.Chance(1, 8) { // a requested blocker of something installed
 				a = "!" + u.pkgs[r.Intn(len(u.pkgs))].pn()
+			}
+			if u.trouble(r, 0, 10, 4) { // not an atom
+				a = r.Pick([]string{"=x", "a/b/c", ">=sys-apps/alpha", "sys-apps/alpha-1.0", "!", "!!", "sys-apps/alpha::", "-foo"})
 			}
 			in.Atoms = append(in.Atoms, B(a))
 		}
